@@ -28,9 +28,25 @@ import (
 	cogyaml "github.com/grafana/cog/internal/yaml"
 )
 
+// refuse aborts the current phase. While the loader side of one file is being walked the
+// refusal is recovered (see loaderSide): that file's loader table degrades to an empty root
+// struct (the Lean bisimilarity obligation then fails), the published tables are still emitted so
+// that the harness can generate documents from schemas/*.json alone and search for a concrete
+// failing input on the real loaders. Anywhere else (schemas/*.json not understood) it is fatal.
+type refusal struct{ msg string }
+
 func refuse(format string, a ...any) {
-	fmt.Fprintf(os.Stderr, "xconfig: REFUSE: "+format+"\n", a...)
-	os.Exit(1)
+	panic(refusal{fmt.Sprintf(format, a...)})
+}
+
+func fatalOnRefusal() {
+	if r := recover(); r != nil {
+		if rf, ok := r.(refusal); ok {
+			fmt.Fprintf(os.Stderr, "xconfig: REFUSE: %s\n", rf.msg)
+			os.Exit(1)
+		}
+		panic(r)
+	}
 }
 
 // softRefuse: a form of the decoder sites / As…() functions that is not understood. The key
@@ -89,7 +105,7 @@ func specs() []fileSpec {
 // facts, as emitted
 
 type lty struct {
-	K    string `json:"k"`              // scalar | any | ref | list | fmap
+	K    string `json:"k"`              // scalar | any | ref | list | fmap | opaque (struct with a custom unmarshaller: Ref = its fields as reflection sees them; `.any` for the model)
 	Go   string `json:"go,omitempty"`   // scalar: bool|int|uint|float|string
 	Ref  int    `json:"ref,omitempty"`  // ref: index into LEnv
 	Elem *lty   `json:"elem,omitempty"` // list, fmap
@@ -158,6 +174,7 @@ type facts struct {
 }
 
 func main() {
+	defer fatalOnRefusal()
 	args := map[string]string{}
 	for _, a := range os.Args[1:] {
 		if i := strings.IndexByte(a, '='); i > 0 {
@@ -179,55 +196,30 @@ func main() {
 		}
 	}
 	for _, sp := range specs() {
-		w := newWalker()
-		root := w.def(sp.Root)
-		// measured == static, for every struct reachable from the root
-		out.Measured += w.measureAll(allSchemaKeys)
-		out.Structs += len(w.defs)
 		sd := schemas[sp.Name]
-		ff := fileFacts{Name: sp.Name, Schema: sp.Schema, LEnv: w.defs, LRoot: root,
-			PNames: sd.names, PEnv: sd.defs, PRoot: sd.root}
-		ff.ROf = matchHint(w.defs, root, sd)
-		for _, u := range sp.Unions {
-			idx, ok := w.index[u.Type]
-			if !ok {
-				refuse("union type %s is not reachable from root %s", u.Type, sp.Root)
-			}
-			fieldsRecognised := unionArms(filepath.Join(repo, u.SrcFile), u.Func)
-			uf := unionFacts{Def: idx, Name: u.Type.Name()}
-			fieldKey := w.fieldKeys[u.Type] // Go field name -> yaml key
-			for _, f := range fieldsRecognised {
-				k, ok := fieldKey[f]
-				if !ok {
-					softRefuse("%s tests field %s which yaml.v3 does not decode", u.Func, f)
-					continue
-				}
-				uf.Recognised = append(uf.Recognised, k)
-			}
-			for _, f := range w.defs[idx].Fields {
-				uf.Declared = append(uf.Declared, f.Key)
-			}
-			sort.Strings(uf.Recognised)
-			ff.Unions = append(ff.Unions, uf)
-		}
-		for _, rk := range sp.RuleKeys {
-			found := false
-			for _, f := range w.defs[root].Fields {
-				if f.Key == rk.Key {
-					if f.Ty.K != "list" || f.Ty.Elem.K != "ref" || w.types[f.Ty.Elem.Ref] != rk.Union {
-						refuse("root key %q of %s is not a list of %s", rk.Key, sp.Name, rk.Union)
-					}
-					ff.RuleLists = append(ff.RuleLists, [2]any{rk.Key, f.Ty.Elem.Ref})
-					found = true
-				}
-			}
-			if !found {
-				refuse("root key %q not found in %s", rk.Key, sp.Name)
-			}
+		ff := fileFacts{Name: sp.Name, Schema: sp.Schema, PNames: sd.names, PEnv: sd.defs, PRoot: sd.root}
+		if !loaderSide(repo, sp, sd, allSchemaKeys, &ff, &out) {
+			// loader side not understood: empty root struct, no hint, no unions
+			ff.LEnv = []ldef{{Name: typeName(sp.Root) + " (NOT UNDERSTOOD)"}}
+			ff.LRoot = 0
+			ff.ROf = make([]*lty, len(sd.defs))
+			ff.Unions, ff.RuleLists = nil, nil
 		}
 		out.Files = append(out.Files, ff)
 	}
-	out.Sites = decoderSites(repo, specs())
+	func() {
+		defer func() {
+			if r := recover(); r != nil {
+				rf, isRefusal := r.(refusal)
+				if !isRefusal {
+					panic(r)
+				}
+				softRefuse("decoder sites: %s", rf.msg)
+				out.Sites = nil // sitesCover fails in Lean
+			}
+		}()
+		out.Sites = decoderSites(repo, specs())
+	}()
 	// key interning: one table for loader and published keys
 	keyset := map[string]bool{}
 	for _, ff := range out.Files {
@@ -255,4 +247,64 @@ func main() {
 		os.Exit(3)
 	}
 	fmt.Printf("xconfig ok: %d structs, %d measured probes, %d keys, %d decoder sites\n", out.Structs, out.Measured, len(out.Keys), len(out.Sites))
+}
+
+// loaderSide fills the loader part of ff (reflection + measurement + unions). A refusal inside
+// it is recovered and reported as a soft problem; the caller then degrades the table.
+func loaderSide(repo string, sp fileSpec, sd *schemaDoc, allSchemaKeys map[string]bool, ff *fileFacts, out *facts) (ok bool) {
+	defer func() {
+		if r := recover(); r != nil {
+			rf, isRefusal := r.(refusal)
+			if !isRefusal {
+				panic(r)
+			}
+			softRefuse("%s loader: %s", sp.Name, rf.msg)
+			ok = false
+		}
+	}()
+	w := newWalker()
+	root := w.def(sp.Root)
+	// measured == static, for every struct reachable from the root
+	out.Measured += w.measureAll(allSchemaKeys)
+	out.Structs += len(w.defs)
+	ff.LEnv, ff.LRoot = w.defs, root
+	ff.ROf = matchHint(w.defs, root, sd)
+	for _, u := range sp.Unions {
+		idx, ok := w.index[u.Type]
+		if !ok {
+			refuse("union type %s is not reachable from root %s", u.Type, sp.Root)
+		}
+		fieldsRecognised := unionArms(filepath.Join(repo, u.SrcFile), u.Func)
+		uf := unionFacts{Def: idx, Name: u.Type.Name()}
+		fieldKey := w.fieldKeys[u.Type] // Go field name -> yaml key
+		for _, f := range fieldsRecognised {
+			k, ok := fieldKey[f]
+			if !ok {
+				softRefuse("%s tests field %s which yaml.v3 does not decode", u.Func, f)
+				continue
+			}
+			uf.Recognised = append(uf.Recognised, k)
+		}
+		for _, f := range w.defs[idx].Fields {
+			uf.Declared = append(uf.Declared, f.Key)
+		}
+		sort.Strings(uf.Recognised)
+		ff.Unions = append(ff.Unions, uf)
+	}
+	for _, rk := range sp.RuleKeys {
+		found := false
+		for _, f := range w.defs[root].Fields {
+			if f.Key == rk.Key {
+				if f.Ty.K != "list" || f.Ty.Elem.K != "ref" || w.types[f.Ty.Elem.Ref] != rk.Union {
+					refuse("root key %q of %s is not a list of %s", rk.Key, sp.Name, rk.Union)
+				}
+				ff.RuleLists = append(ff.RuleLists, [2]any{rk.Key, f.Ty.Elem.Ref})
+				found = true
+			}
+		}
+		if !found {
+			refuse("root key %q not found in %s", rk.Key, sp.Name)
+		}
+	}
+	return true
 }
